@@ -11,9 +11,10 @@ This module contains classes and functions to remove component tensors.
 from collections import defaultdict
 
 from ufl.algorithms.map_integrands import map_integrand_dags
-from ufl.classes import ComponentTensor, Index, MultiIndex, Zero
+from ufl.classes import ComponentTensor, Index, IndexSum, MultiIndex, Zero
 from ufl.corealg.map_dag import map_expr_dag
 from ufl.corealg.multifunction import MultiFunction
+from ufl.corealg.traversal import unique_pre_traversal
 from ufl.index_combination_utils import unique_sorted_indices
 
 
@@ -74,6 +75,8 @@ class IndexRemover(MultiFunction):
         # caches for reuse in the dispatched transformers
         self.vcaches = defaultdict(dict)
         self.rcaches = defaultdict(dict)
+        # indices bound inside an expression (by object)
+        self.bound = {}
 
     expr = MultiFunction.reuse_if_untouched
 
@@ -82,6 +85,21 @@ class IndexRemover(MultiFunction):
         if isinstance(o1, ComponentTensor):
             # Simplify Indexed ComponentTensor
             o2, i2 = o1.ufl_operands
+            # Substituting an index that is bound inside o2 (summation or
+            # component tensor index) would capture it: keep the node then
+            bound = self.bound.get(o2)
+            if bound is None:
+                bound = set()
+                for e in unique_pre_traversal(o2):
+                    if isinstance(e, IndexSum):
+                        bound.add(e.ufl_operands[1][0])
+                    elif isinstance(e, ComponentTensor):
+                        bound.update(e.ufl_operands[1])
+                self.bound[o2] = bound
+            if any(i in bound for i in i1):
+                if o.ufl_operands[0] is o1:
+                    return o
+                return o._ufl_expr_reconstruct_(o1, i1)
             # Replace outer indices
             rkey = (i2, i1)
             rule = self.rules.get(rkey)
